@@ -57,6 +57,10 @@ add("C18","E5 codec","exploration",
     "DER INTEGER (from_der, TryFrom<AnyRef>, TryFrom<UintRef>, to_der, encode_to_slice, encoded_len) for U64, U128, U192, U256, U384, U512, U1024, U8192 and RLP (rlp::decode / rlp::encode) for U64..U256: the complete product of tags x length forms (minimal, overlong, indefinite, truncated, trailing garbage) x every content length 0..=BITS/8+4 x content patterns (leading 00 / 00 00 / 00 80 / ff / 80 / 7f, zeros, probe); an independent recogniser decides whether the input is exactly one canonical encoding of a value that fits; the decoder must return that value iff so and an error otherwise (never a panic, truncation or wrap). Encoders compared with reference encoders at the 7f/80 boundary of every octet length.",
     ASSUME + " The rlp crate's top-level decode ignores bytes after a complete item; such inputs are not generated.", "grammar-exhaustive exploration of the real decoders against an independent canonical-encoding recogniser", "DESIGN.md §3.C18")
 
+add("C12","E1+E4 route closure","exploration",
+    "An explicit route table of every public way to obtain NonZero<T>/Odd<T> (T in Limb, Uint<1,2,4>, Int, BoxedUint): new/new_unwrap/to_nz/to_odd/expect, constants, Default, NonZeroU8..U128 conversions, byte/hex decoders in both byte orders, serde Deserialize, abs_sign, as_nz_ref, From<Odd<Uint>>, params modulus(), Random under scripted RNG streams whose first 0..=3 draws are zero/even; every route applied to the alphabet {0,1,2,3,MAX,MAX-1, even/odd patterns}; the produced set is closed under conditional_select (both choices, explicit-state worklist). Invariant on every state: non-zero / odd, decoded in the stated byte order; consumers accept every produced value. States and transitions are reported.",
+    ASSUME, "explicit-state closure of the wrapper-producing routes on the real code (worklist over produced values, invariant checked on every state), scripted-environment enumeration for the RNG routes", "DESIGN.md §3.C12")
+
 NOT_YET = {}
 ALL = [f"C{i:02d}" for i in range(1,21)]
 import os, sys
